@@ -23,7 +23,7 @@ CHECKS = {
    "C02's enumeration with 1-2 leaves replaced by AutoVar calls of 7 config kinds in 18 condition positions, AutoVar switch operands in 7 contexts (nested switches), AutoVar statements inside poryswitch cases, loops with an AutoVar condition whose body has no command or label-reached statements after a break, each also with line markers on with and without a path; the preamble command, every operand read and every body command are observable events compared on every path",
    "expected preamble text follows the statement rendering rule that C10 checks separately"),
  "C06": (EX, "bounded-exhaustive enumeration of files with inline arguments against a generator-side naming/sharing model",
-   "every file with up to N inline text / moves() arguments over 3 owners (incl. a table-first mapscripts layout), 25 datum kinds and 13 contexts, user statements imitating generated names or coming near them, explicit statements with the very contents of the inline arguments, constants named like contents, plus long files with K different arguments for every K up to a bound, mass files (every ending of a long list's last step; 200,000 different texts) and prepared pairs of contents with equal 64-bit digests, and three-operand conditions whose operands carry inline data under every operator pair and grouping; argument labels, label contents, sharing, per-owner numbering and clash errors are compared with the generator's expectation",
+   "every file with up to N inline text / moves() arguments over 3 owners (incl. a table-first mapscripts layout), 25 datum kinds and 13 contexts, user statements imitating generated names or coming near them, explicit statements with the very contents of the inline arguments, constants named like contents, plus long files with K different arguments for every K up to a bound, mass files (every ending of a long list's last step; 200,000 different texts) and prepared pairs of contents with equal 64-bit digests, three-operand conditions whose operands carry inline data under every operator pair and grouping, and every ordered pair of 24 arguments with near-equal dedupe keys (string types differing in letter case, name+count spellings that coincide) in two scripts, compared with each script compiled alone; argument labels, label contents, sharing, per-owner numbering and clash errors are compared with the generator's expectation",
    "naming rule <owner>_Text_<n> / <owner>_Movement_<n> in order of first appearance is the reference model"),
  "C07": (EX, "bounded-exhaustive enumeration of texts x fonts x every parameter value against an independent token-stream oracle",
    "every atom sequence up to length L (words, multi-byte, control codes, spacing, explicit breaks) x 2 synthetic fonts x every maxLineLength x numLines x cursorOverlap through the exported FormatText, words around one representative of every Unicode category and around the literals of the compiler's own source, words made of backslashes, long texts of K atoms, plus a cross-product of format() spellings compiled end to end under 5 font config files",
